@@ -5,8 +5,8 @@
 import os, sys
 sys.path.insert(0, os.path.join(os.environ.get("AIOFTP_REPO", "/repo"), "src"))
 OBLIGATION = 'aioftp.server:Server.rnto#SEQ::PathConditions.__call__.<locals>.wrapper/backend:exists:authorised'
-MODEL = {'auth_ok!27': False, 'virtual!57': 'Unit("!3!")', 'u_cur_home!53': 'Unit("!1!")', 'rest!28': 'A', 'logged_done!14': False, 'cwd!54': 'Unit("!2!")', 'real!56': 'OPath!val!0', 'restart_offset!10': 0, 'u_cur_base!52': 'OPath!val!1', 'block_size!0': 1, 'user_present!11': True, 'rename_from_present!17': True, 'rename_from_done!18': True, 'user_done!12': True, 'current_directory_present!15': True, 'current_directory_done!16': True}
-SOLVER_NOTE = ''
+MODEL = {}
+SOLVER_NOTE = 'cvc5=unknown z3=sat'
 
 print("obligation", OBLIGATION, "failed; no concrete failing input could be constructed automatically")
 print("counter-model (may be spurious where string builtins are uninterpreted):")
